@@ -151,3 +151,15 @@ Definition wb_pseudo_fill (src dst : list Z) (proto : Z) (d : list Z) : Z :=
   65535 - wb_cksum_combine [wb_pseudo_header src dst proto (blen d); wb_cksum_data d].
 Definition wb_plain_ok (d : list Z) : bool := wb_cksum_data d =? 65535.
 Definition wb_plain_fill (d : list Z) : Z := 65535 - wb_cksum_data d.
+
+(* operate on the mutable sub-slice `&mut data[lo..]` (e.g. `Packet::new_unchecked(packet.payload_mut())`
+   followed by an emit into it): [f] sees the sub-slice, the result is written back in place.
+   [f] must preserve the length, as every in-place operation on a slice does. *)
+Definition wb_on_from (l : list Z) (lo : Z) (f : list Z -> outcome (list Z)) : outcome (list Z) :=
+  do s <- wb_from l lo;
+  do s' <- f s;
+  Ok (firstn (Z.to_nat lo) l ++ s').
+
+(* slice.fill(v) on data[lo..hi] *)
+Definition wb_fill (l : list Z) (lo hi : Z) (v : Z) : outcome (list Z) :=
+  wb_set_slice l lo hi (repeat v (Z.to_nat (hi - lo))).
